@@ -69,6 +69,89 @@ func randInsn(r *Rng, m, rl, wl int) mars.Insn {
 	return i
 }
 
+// nearEqualCore fills the core with two instructions that differ in very little: a template and one
+// variant of it (no field, one field, two fields, or two enum fields changed the way a carry between the
+// digits of a packed key would change them).  Whatever cells the operands select, whole-instruction
+// comparisons then meet pairs that are equal or almost equal.
+func nearEqualCore(sc *StepCase, r *Rng) {
+	m := sc.M
+	t := randInsn(r, m, sc.R, sc.W)
+	enumMax := []int{int(mars.NumOps) - 1, int(mars.NumMods) - 1, int(mars.NumModes) - 1, int(mars.NumModes) - 1}
+	get := func(i *mars.Insn, k int) int {
+		switch k {
+		case 0:
+			return int(i.Op)
+		case 1:
+			return int(i.Mod)
+		case 2:
+			return int(i.AM)
+		case 3:
+			return int(i.BM)
+		case 4:
+			return i.A
+		}
+		return i.B
+	}
+	set := func(i *mars.Insn, k, v int) {
+		switch k {
+		case 0:
+			i.Op = mars.Op(v)
+		case 1:
+			i.Mod = mars.Mod(v)
+		case 2:
+			i.AM = mars.Mode(v)
+		case 3:
+			i.BM = mars.Mode(v)
+		case 4:
+			i.A = v
+		default:
+			i.B = v
+		}
+	}
+	size := func(k int) int {
+		if k < 4 {
+			return enumMax[k] + 1
+		}
+		return m
+	}
+	bump := func(i *mars.Insn, k int) {
+		d := 1
+		if r.Bool() {
+			d = size(k) - 1
+		}
+		set(i, k, (get(i, k)+d)%size(k))
+	}
+	v := t
+	switch r.Intn(4) {
+	case 0: // identical
+	case 1:
+		bump(&v, r.Intn(6))
+	case 2:
+		a := r.Intn(6)
+		b := (a + 1 + r.Intn(5)) % 6
+		bump(&v, a)
+		bump(&v, b)
+	default:
+		// carry: the low digit goes from its maximum to 0 while the high digit goes up by one (or back)
+		lo := r.Intn(4)
+		hi := (lo + 1 + r.Intn(3)) % 4
+		set(&t, lo, enumMax[lo])
+		v = t
+		set(&v, lo, 0)
+		set(&v, hi, (get(&t, hi)+1)%size(hi))
+		if r.Bool() {
+			t, v = v, t
+		}
+	}
+	for i := range sc.Core {
+		if r.Bool() {
+			sc.Core[i] = t
+		} else {
+			sc.Core[i] = v
+		}
+	}
+}
+
 var bigMs = []int{17, 31, 64, 100, 800, 8000, 1 << 20}
 
 // genStepCase builds the case for index idx.  The form at PC is enumerated
@@ -131,6 +214,12 @@ func genStepCase(idx int64, r *Rng, thorough, limited bool) *StepCase {
 	}
 	f := formInsn(int(idx % int64(numForms)))
 	f.A, f.B = fieldVal(r, m, sc.R, sc.W), fieldVal(r, m, sc.R, sc.W)
+	if m <= 4096 {
+		isCmp := f.Op == mars.CMP || f.Op == mars.SEQ || f.Op == mars.SNE
+		if (isCmp && r.Chance(1, 2)) || r.Chance(1, 16) {
+			nearEqualCore(sc, r)
+		}
+	}
 	sc.Core[sc.PC] = f
 	if r.Chance(1, 3) {
 		aimIndirect(sc, r)
